@@ -64,30 +64,25 @@ def prune(n: Node, strict: bool = False) -> list:
     """
     pruned = list()
     if n.name != "metadata":
-        try:
-            node(n)
-        except UnknownNodeError as ex:
+        if n.name not in rule.node_mappings:
             logger.debug(f"Pruning: {n.name}")
-            pruned.append((n, str(ex)))
+            pruned.append((n, f"Unknown node rule type: {n.name}"))
             if n.parent is not None:
                 n.parent.remove_child(n)
             Node.delete_node_instance(n.id)
             return pruned
-        except ChildNotAllowedError as ex:
-            r = rule.get_rule(n.name)
-            children = n.children.copy()
-            for child in children:
-                if not r.is_allowed_child(child.name):
-                    logger.debug(f"Pruning: {child.name}")
-                    pruned.append((child, str(ex)))
-                    n.remove_child(child)
-                    Node.delete_node_instance(child.id)
-        except MetapypeRuleError as ex:
-            logger.debug(ex)
+        r = rule.get_rule(n.name)
+        children = n.children.copy()
+        for child in children:
+            if not r.is_allowed_child(child.name):
+                logger.debug(f"Pruning: {child.name}")
+                pruned.append((child, f"Child '{child.name}' not allowed in parent '{n.name}'"))
+                n.remove_child(child)
+                Node.delete_node_instance(child.id)
         children = n.children.copy()
         for child in children:
             pruned += prune(child, strict)
-            if strict and child not in pruned:
+            if strict and child in n.children:
                 try:
                     node(child)
                 except MetapypeRuleError as ex:
